@@ -66,3 +66,67 @@ CHECKS["C03"] = dict(
     replay=replay_index("c03"),
     require=dict(events_written=1000, hooks_attached=500, discard_hooks=20),
 )
+
+CHECKS["C04"] = dict(
+    level="exploration",
+    level_text=("exhaustive runtime enumeration: all 256 logger levels x 256 global levels x 256 event levels (a superset of the 136 the statement "
+                "names) against a recording LevelWriter, with admit-all / reject-all counting samplers; all 256 Level text round trips; every "
+                "exported *Event method (enumerated by reflection) called with recording arguments on six kinds of filtered event; Panic/Fatal "
+                "behaviour observed in-process and in a re-executed child. exhaustive=true for the level space."),
+    technique="runtime monitoring: exhaustive level-triple enumeration + reflection-driven inertness probes + child-process exit observation",
+    stages=lambda tier: [dict(variant="vh", cmd="c04", shards=16, timeout=1200)],
+    rule=("every (logger level, global level, event level) triple in [-128,127]^3 is one case (16 777 216, all distinct by construction), plus the "
+          "named level methods and Print family on the 256x256 grid, 1029 text round trips, one call per (exported Event method x filtered-event "
+          "source) and 11 Panic/Fatal scenarios; non-trivial = all of them (each is a different input); distinct_nontrivial counts hashes only "
+          "for nothing here, so the number reported is sum_distinct_cases computed from the loop counters."),
+    assumptions=["an argument type of a future Event method that the synthesizer cannot build makes the check exit 2 (harness incomplete), never pass silently"],
+    require=dict(level_triples=16777216, inert_method_calls=300),
+)
+
+CHECKS["C13"] = dict(
+    level="exploration",
+    level_text=("online reference-model monitor: every Sample return value is compared with an executable model of the documented share driven by "
+                "the same scripted TimestampFunc clock (bounded-exhaustive over all clock histories of length <=6/7 on a 7-value alphabet x Burst x "
+                "Period x 5 NextSampler compositions, random non-monotonic histories beyond), LevelSampler over all 256 levels x 32 configurations, "
+                "samplers behind a Logger (gated events must not consume budget, DisableSampling), and BasicSampler under real goroutines: exact "
+                "ceil(k/N) accounting, porcupine linearizability of short histories against the counter model, and the race detector."),
+    technique="runtime monitoring: reference sampler models compared call by call; porcupine + race detector for concurrent BasicSampler",
+    stages=lambda tier: [dict(variant="vh", cmd="c13", shards=16, timeout=3000),
+                         dict(variant="vh", cmd="c13-conc", shards=4, timeout=3000),
+                         dict(variant="vh-race", cmd="c13-conc", shards=4, timeout=3000, race=True)],
+    rule=("one case = one (sampler parameters, clock history) pair or one concurrent run; non-trivial = Burst>0 and Period>0 for Burst histories, "
+          "all others; distinct by case index / content hash"),
+    assumptions=["clock readings >= 1 ns and sums below MaxInt64; uint32 counter wrap-around is not driven"],
+    require=dict(sample_calls=100000, porcupine_ok=100),
+)
+
+CHECKS["C14"] = dict(
+    level="fault_enumeration",
+    level_text=("fault enumeration at the writer boundary: every outcome matrix {ok,error,short}^(destinations x events) for <=3 destinations x <=3 (quick) / "
+                "<=4 (thorough) events is scripted into recording fault-injecting destinations (with and without FilteredLevelWriter, plain io.Writer vs "
+                "LevelWriter), plus random larger configurations; per-destination call logs and the ErrorHandler log are compared with the model "
+                "'first failing destination wins, exactly one handler call per failing event, later events unaffected'."),
+    technique="runtime monitoring with injected writer faults: exhaustive outcome matrices, per-destination and ErrorHandler logs vs model",
+    stages=lambda tier: [dict(variant="vh", cmd="c14", shards=16, timeout=3000)],
+    rule=("one case = one (destination count, event count, outcome matrix, filter levels, writer kinds, event levels) configuration; all are non-trivial; "
+          "distinct by hash of the configuration"),
+    assumptions=["a single (non-multi) writer's short write is not an error (the statement surfaces short writes only under MultiLevelWriter)"],
+    require=dict(exhaustive_matrix_cases=20000),
+)
+
+CHECKS["C15"] = dict(
+    level="exploration",
+    level_text=("reference-model monitor: the destination's (level, bytes) sequence is compared after every operation with an executable model of "
+                "hold/release/pass-through for all histories of WriteLevel/Trigger/Close up to length 5 (quick) / 6 (thorough) over an 8-level alphabet, "
+                "all 64 (Conditional, Trigger) pairs on all length-3 histories, random histories over all levels except 10; concurrent runs are checked "
+                "with porcupine against the same model (each operation's output = the lines the destination received during that call) plus exactly-once "
+                "/ unaltered / level-preserved invariants, also under the race detector."),
+    technique="runtime monitoring: trigger-buffer reference model, porcupine linearizability of concurrent histories, race detector",
+    stages=lambda tier: [dict(variant="vh", cmd="c15", shards=16, timeout=3000),
+                         dict(variant="vh", cmd="c15-conc", shards=4, timeout=3000),
+                         dict(variant="vh-race", cmd="c15-conc", shards=4, timeout=3000, race=True)],
+    rule=("one case = one operation history (sequential) or one concurrent run; non-trivial = length >= 2; distinct by history index / destination content hash"),
+    assumptions=["the destination never fails; line bodies have no interior newline; level 10 is never used (all excluded by the statement)",
+                 "Close discards the held lines (the statement only fixes that they are never written if the trigger never happened)"],
+    require=dict(exhaustive_histories=10000, porcupine_ok=100),
+)
